@@ -22,6 +22,11 @@ What is PROVED here, for all states / requests / oracles (no size bound):
     enabled ∧ started);
   * an accepted template update re-synchronises exactly the tasks created from the template (all), one rejected by
     validation none: all-or-none for every answer other than 500.
+  * storage faults (second semantics Kap/Model/C14Fault.lean: the k-th Update transaction of the request fails): without
+    a fault it IS the model; the running-state invariant survives a fault in any transaction of any request; per
+    handler and per fault position, what the failed transaction leaves behind (`…_under_fault`);
+  * a task that dies at run time (`Op.die`) is not executing afterwards and nothing stored changes; deaths are ordinary
+    steps of the history theorems.
 What is proved by counterexample (`decide` on the model, replayed on the real code by corpus/C14/*.ops): the two
 repaired defects on the snapshot order, and the four recorded findings on today's code (incl. the 500 case of
 all-or-none).
@@ -287,6 +292,44 @@ theorem template_delete_orphans_tasks :
     ((run Variant.fixed demoEnv orphan).store.tasks "b").map (fun t => (t.script, t.tmpl)) = some ("t0", "T") ∧
     (run Variant.fixed demoEnv orphan).store.assoc "T" "b" = false ∧
     (run Variant.fixed demoEnv orphan).store.tmpls "T" = some "td" := by decide
+
+def twoUp : List Req :=
+  [ ⟨.create "a" { script := "s0", dbrps := ["db.rp"], status := some true }, [], none⟩,
+    ⟨.create "b" { script := "s0", dbrps := ["db.rp"], status := some true }, [], none⟩ ]
+
+/-! ### Run-time death -/
+
+/-- **A task that dies on its own is not shown as executing**: after `Op.die id` (the goroutine of startTask stops
+the task and records the error) the task is not executing, every other task's running state is untouched, and nothing
+stored changes — the task keeps its definition and its status (enabled), which is why it comes back at the next
+restart (`restart_restores`). In the catalogue spec the task is no longer `started`, so `api_shows_last_accepted` /
+`executing_iff_enabled_and_started` cover histories with deaths (they put no restriction on `die`). Tied to the code by
+the `die` op of the harness: a poison point makes the task's UDF node fail. -/
+theorem dead_task_is_not_executing (v : Variant) (env : Env) (fail : List String) (w : World) (id : String) :
+    (handle v env fail w (.die id)).1.exec id = false ∧
+    (∀ j, j ≠ id → (handle v env fail w (.die id)).1.exec j = w.exec j) ∧
+    (handle v env fail w (.die id)).1.store = w.store ∧
+    (∀ c : Cat, (accept env fail c (.die id)).executing id = false) := by
+  have hv := congrArg View.exec (dieTask_view w id)
+  simp only [view_exec] at hv
+  refine ⟨?_, fun j hj => ?_, dieTask_store w id, ?_⟩
+  · show (dieTask w id).1.exec id = false
+    rw [hv]; simp [View.setExec]
+  · show (dieTask w id).1.exec j = w.exec j
+    rw [hv]; simp [View.setExec, hj]
+  · intro c
+    simp only [accept, Cat.executing, setStarted]
+    cases c.tasks id <;> simp
+
+/-- … witnessed on a reachable state with two executing tasks (corpus/C14/run-time-death.ops): `a` dies, stays
+enabled, `b` keeps executing; re-asserting `enabled` does not restart it, a restart does. -/
+theorem death_then_restart :
+    (run Variant.fixed demoEnv (twoUp ++ [⟨.die "a", [], none⟩])).exec "a" = false ∧
+    (run Variant.fixed demoEnv (twoUp ++ [⟨.die "a", [], none⟩])).exec "b" = true ∧
+    ((run Variant.fixed demoEnv (twoUp ++ [⟨.die "a", [], none⟩])).store.tasks "a").map (·.enabled) = some true ∧
+    (run Variant.fixed demoEnv (twoUp ++ [⟨.die "a", [], none⟩, ⟨.update "a" { status := some true }, [], none⟩])).exec "a" = false ∧
+    (run Variant.fixed demoEnv (twoUp ++ [⟨.die "a", [], none⟩, ⟨.restart, [], none⟩])).exec "a" = true := by
+  decide
 
 /-! ### Storage faults (Kap/Model/C14Fault.lean: the k-th Update transaction of the request fails) -/
 
